@@ -10,4 +10,4 @@ CONSTANTS Codes <- MCCodes
 INIT Init
 NEXT Next
 CHECK_DEADLOCK FALSE
-INVARIANTS MachineIsFold FoldIsFold WellFormed RestoreReestablishes CopyAtCreation OnlyActiveWritten ErrorsInert BackwardIsFold
+INVARIANTS OnlyActiveWritten
